@@ -104,9 +104,9 @@ def run(tier, seed, replay=None):
         r = C.Rng(seed)
         z = sizes(tier)
         lines = R.corpus(PID) + R.gen_cases(r, z["per_in"], z["per_any"], z["nseq"], z["seqlen"])
-    real = C.drive_parallel(h, lines)
-    model = C.drive_parallel(model_exe, lines, args=["sv"]) if model_exe else None
-    oracle = C.drive_parallel(oracle_exe, lines)
+    real = C.drive_parallel(h, lines, timeout_per_case=2.0)
+    model = C.drive_parallel(model_exe, lines, args=["sv"], timeout_per_case=2.0) if model_exe else None
+    oracle = C.drive_parallel(oracle_exe, lines, timeout_per_case=2.0)
     res = compare(lines, real, model, oracle)
     C.log(f"[cases] {len(lines)} lines; oracle-compared {res['compared']} ({res['steps']} steps); "
           f"tv mismatches {len(res['tv_mismatch'])}; oracle violations {len(res['genuine'])}; {time.time()-t0:.0f}s")
@@ -121,8 +121,8 @@ def run(tier, seed, replay=None):
         z = sizes(tier, search=True)
         r2 = C.Rng(seed * 7919 + 13)
         more = R.gen_cases(r2, z["per_in"], z["per_any"], z["nseq"], z["seqlen"])
-        real2 = C.drive_parallel(h, more)
-        oracle2 = C.drive_parallel(oracle_exe, more)
+        real2 = C.drive_parallel(h, more, timeout_per_case=2.0)
+        oracle2 = C.drive_parallel(oracle_exe, more, timeout_per_case=2.0)
         res2 = compare(more, real2, None, oracle2)
         searched = len(more)
         res["genuine"] += res2["genuine"]
